@@ -8,25 +8,6 @@ Ids == {"L1", "L2", "L3", "L9", "L5"}
 SdSets(id) == LET ns == Len(GModel(id).shocks) IN {[i \in 1..ns |-> R(1)], [i \in 1..ns |-> IF i = 1 THEN R(2) ELSE Q(1, 2)]}
 MaxOrder == 2
 
-Unit(n) == [i \in 1..n |-> RZero]
-\* coefficient vectors (over the stable variables, for lags 0 and 1) of element e of the acov vector, or "unit" if it loads on a unit root
-StablePos(id, j) == CHOOSE p \in 1..Len(StableIdx(id)) : StableIdx(id)[p] = j
-Coefs(id, tx, lag) == [p \in 1..Len(StableIdx(id)) |->
-    LET S == {i \in 1..Len(tx) : tx[i][2] = StableIdx(id)[p] /\ tx[i][3] = -lag} IN
-    IF S = {} THEN RZero ELSE tx[CHOOSE i \in S : TRUE][1]]
-LoadsUnit(id, tx) == \E i \in 1..Len(tx) : tx[i][2] \in UnitVars(id)
-Elem(id, e) == LET m == GModel(id) nv == Len(m.vars) IN
-    IF e <= nv THEN (IF e \in UnitVars(id) THEN [unit |-> TRUE]
-                     ELSE [unit |-> FALSE, U |-> << [p \in 1..Len(StableIdx(id)) |-> IF StableIdx(id)[p] = e THEN ROne ELSE RZero], Unit(Len(StableIdx(id))) >>, tw |-> <<>>])
-    ELSE LET q == m.meqs[e - nv] IN
-         IF LoadsUnit(id, q.tx) THEN [unit |-> TRUE]
-         ELSE [unit |-> FALSE, U |-> << Coefs(id, q.tx, 0), Coefs(id, q.tx, 1) >>, tw |-> q.tw]
-\* measurement-shock part of the covariance (order 0 only): sum over shocks of h1 h2 sdw^2
-RECURSIVE ShockCov(_, _, _, _)
-ShockCov(tw1, tw2, sdw, i) == IF i > Len(tw1) THEN RZero
-    ELSE LET S == {k \in 1..Len(tw2) : tw2[k][2] = tw1[i][2]} IN
-         RAdd(IF S = {} THEN RZero ELSE RMul(RMul(tw1[i][1], tw2[CHOOSE k \in S : TRUE][1]), RMul(sdw, sdw)), ShockCov(tw1, tw2, sdw, i + 1))
-
 Acov(id, sdw, ly, Cs) == LET m == GModel(id) n == Len(m.vars) + Len(m.mvars) IN
     [ok |-> ly.ok /\ LyapOk(ly),
      names |-> m.vars \o m.mvars,
